@@ -47,3 +47,45 @@ def check_C11(c):
     return c.finish("model_checking",
                     "one case = one (level, strategy, window bits) configuration on data whose only long-range redundancy lies just beyond the window the header may declare; the acceptor's maximum distance is compared with the declared window",
                     TRUST)
+
+
+RULE_DEC = ("one case = one stream (valid, mutated, truncated or random) driven through the real decoder along "
+            "many call schedules; every call is judged by InflateContract against the verdict of the TLA+ acceptor; "
+            "non-trivial = every case (distinct stream x schedule set)")
+
+
+def check_C03(c):
+    c.scenario("entrypoints")
+    return c.finish("model_checking", RULE_DEC, TRUST)
+
+
+def check_C04(c):
+    c.scenario("invalid")
+    return c.finish("model_checking", RULE_DEC, TRUST)
+
+
+def check_C05(c):
+    c.scenario("total")
+    if thorough(c):
+        c.scenario("total", profile="dbg")
+    return c.finish("model_checking", RULE_DEC, TRUST)
+
+
+def check_C06(c):
+    c.scenario("trailing")
+    return c.finish("model_checking", RULE_DEC, TRUST)
+
+
+def check_C07(c):
+    c.scenario("schedules")
+    return c.finish("model_checking", RULE_DEC, TRUST)
+
+
+def check_C08(c):
+    c.scenario("window")
+    return c.finish("model_checking", RULE_DEC, TRUST)
+
+
+def check_C13(c):
+    c.scenario("inflate_protocol")
+    return c.finish("model_checking", RULE_DEC, TRUST)
